@@ -58,3 +58,105 @@ Proof.
   - rewrite rc4_apply_keystream_translated, E1. reflexivity.
   - rewrite rc4_apply_keystream_translated, E2. reflexivity.
 Qed.
+
+(* ---- Rc4::key_scheduling_algorithm and Rc4::new, translated from src/rc4.rs on this run (the two
+   for_each closures as loops over `iter_mut().enumerate()` and `(0..256).zip(key.iter().cycle())`) ---- *)
+Lemma cycle_take_cycle : forall key n, cycle_take key n = cycle key n.
+Proof.
+  intros key n. unfold cycle_take, cycle. generalize key at 2 4 as cur. revert n.
+  induction n as [|n IH]; intros cur; [reflexivity|].
+  cbn [cycle_from cycle_aux]. destruct cur as [|k cur]; [destruct key as [|k cur]; [reflexivity|]|]; now rewrite IH.
+Qed.
+
+Lemma length_list_set : forall l n v, length (list_set l n v) = length l.
+Proof. induction l as [|x r IH]; intros [|n] v; cbn; try reflexivity. now rewrite IH. Qed.
+
+Lemma firstn_list_set : forall l n v, (n < length l)%nat -> firstn (S n) (list_set l n v) = firstn n l ++ [v].
+Proof.
+  induction l as [|x r IH]; intros [|n] v H; cbn [length] in H; try lia; [reflexivity|].
+  cbn [list_set]. change (firstn (S (S n)) (x :: list_set r n v)) with (x :: firstn (S n) (list_set r n v)).
+  rewrite IH by lia. reflexivity.
+Qed.
+
+Definition init_body (s : list N) (v : N) : option (((list N * N * N) * unit) + list N) :=
+  if N.of_nat (length s) <=? v then None else Some (inr (list_set s (N.to_nat v) (v mod 256))).
+
+Lemma init_loop_spec : forall m k s, (k + m = length s)%nat ->
+  for_loop init_body s (map N.of_nat (seq k m))
+  = Some (inr (firstn k s ++ map (fun i => N.of_nat i mod 256) (seq k m))).
+Proof.
+  induction m as [|m IH]; intros k s H.
+  - cbn [seq map for_loop]. rewrite app_nil_r. replace k with (length s) by lia. now rewrite firstn_all.
+  - cbn [seq map for_loop]. unfold init_body at 1.
+    destruct (N.leb_spec (N.of_nat (length s)) (N.of_nat k)) as [Hle|_]; [lia|].
+    rewrite Nat2N.id. rewrite IH by (rewrite length_list_set; lia).
+    rewrite firstn_list_set by lia. rewrite <- app_assoc. reflexivity.
+Qed.
+
+Fixpoint ksa_loop_j (pairs : list (nat * N)) (s : list N) (j : N) : option (list N * N) :=
+  match pairs with
+  | [] => Some (s, j)
+  | (i, k) :: r =>
+    match get s (N.of_nat i) with
+    | None => None
+    | Some si =>
+      let j' := ((j + si) mod 256 + k) mod 256 in
+      match swap s (N.of_nat i) j' with
+      | None => None
+      | Some s' => ksa_loop_j r s' j'
+      end
+    end
+  end.
+
+Lemma ksa_loop_j_fst : forall pairs s j, ksa_loop pairs s j = option_map fst (ksa_loop_j pairs s j).
+Proof.
+  induction pairs as [|[i k] r IH]; intros s j; [reflexivity|].
+  cbn [ksa_loop ksa_loop_j]. destruct (get s (N.of_nat i)) as [si|]; [|reflexivity].
+  destruct (swap s (N.of_nat i) _) as [s'|]; [apply IH|reflexivity].
+Qed.
+
+Definition ksa_body : list N * N -> N * N -> option (((list N * N * N) * unit) + (list N * N)) :=
+  fun '(s_state, v_j) '(v_i, v_k) =>
+  match nth_error s_state (N.to_nat v_i) with None => None | Some t1 =>
+  let v_j := ((((v_j + t1) mod 256) + v_k) mod 256) in
+  match nth_error s_state (N.to_nat v_i), nth_error s_state (N.to_nat v_j) with
+  | Some x2, Some y3 =>
+  let s_state := list_set (list_set s_state (N.to_nat v_i) y3) (N.to_nat v_j) x2 in
+  Some (inr (s_state, v_j))
+  | _, _ => None end end.
+
+Lemma ksa_body_loop : forall (l : list nat) ks s j,
+  for_loop ksa_body (s, j) (combine (map N.of_nat l) ks)
+  = match ksa_loop_j (combine l ks) s j with Some r => Some (inr r) | None => None end.
+Proof.
+  induction l as [|i l IH]; intros ks s j; [reflexivity|].
+  destruct ks as [|k ks]; [reflexivity|].
+  cbn [map combine for_loop ksa_loop_j]. unfold ksa_body at 1, get, swap, get. cbv beta iota.
+  destruct (nth_error s (N.to_nat (N.of_nat i))) as [si|]; [|reflexivity].
+  destruct (nth_error s (N.to_nat (((j + si) mod 256 + k) mod 256))) as [sj|]; [|reflexivity].
+  rewrite !list_set_upd. apply IH.
+Qed.
+
+Lemma rc4_ksa_translated : forall s i j key, length s = 256%nat ->
+  tr_rc4_key_scheduling_algorithm s i j key
+  = match ksa_loop (combine (seq 0 256) (cycle key 256)) identity_state 0 with
+    | Some s' => Some ((s', i, j), tt) | None => None end.
+Proof.
+  intros s i j key Hs. unfold tr_rc4_key_scheduling_algorithm.
+  change (fun (s_state : list N) (v_i : N) => _) with init_body.
+  assert (Hr : range_list 0 (N.of_nat (length s)) = map N.of_nat (seq 0 256)) by (rewrite Hs; reflexivity).
+  rewrite Hr. rewrite (init_loop_spec 256 0 s) by (rewrite Hs; reflexivity).
+  cbn [firstn app]. change (map (fun i0 : nat => N.of_nat i0 mod 256) (seq 0 256)) with identity_state.
+  cbv beta iota zeta.
+  match goal with |- context [for_loop ?f (identity_state, 0) _] => change f with ksa_body end.
+  change (range_list 0 256) with (map N.of_nat (seq 0 256)).
+  rewrite map_length, seq_length, cycle_take_cycle, ksa_body_loop, ksa_loop_j_fst.
+  destruct (ksa_loop_j _ identity_state 0) as [[s' j']|]; reflexivity.
+Qed.
+
+Lemma rc4_new_translated : forall key,
+  tr_rc4_new key = match rc4_new key with Ok r => Some (rc4_triple r) | _ => None end.
+Proof.
+  intros key. unfold tr_rc4_new, rc4_new. rewrite rc4_ksa_translated by reflexivity.
+  destruct (ksa_loop _ identity_state 0) as [s'|]; reflexivity.
+Qed.
